@@ -1,6 +1,7 @@
 //! Runtime properties decided by Engine A (see /verif/DESIGN.md §4 and §7).
 mod c08;
 mod c12;
+mod c13_timers;
 use serde::{Deserialize, Serialize};
 use sim::dsl::Universe;
 use sim::gen::{universe, GenCfg};
@@ -67,7 +68,7 @@ fn spec(prop: &str) -> Option<Spec> {
             prop: "C13",
             hosts: &[Direct, Core, Core, Legacy, BridgeBincode, BridgeJson],
             gen: GenCfg { max_acts: 260, start_weight: 6, scale: false, garbage_weight: 1, ..GenCfg::standard() },
-            rule: "long cyclic histories (up to 260 shell actions: programs started again and again, resolutions, drops, aborts, late resolutions) on direct / Core / legacy / bridge hosts; after every call: no finished task future is still held (drop counters on every task root future the generated program creates), the core's executor holds exactly as many tasks as there are unfinished commands returned by update, the bridge registry holds no entry for a request that can no longer be resolved; after dropping the host no task future exists; non-trivial = >= 100 actions in which the set of outstanding requests returned to empty >= 10 times; distinct = distinct (host, universe)",
+            rule: "long cyclic histories (up to 260 shell actions: programs started again and again, resolutions, drops, aborts, late resolutions) on direct / Core / legacy / bridge hosts; after every call: no finished task future is still held (drop counters on every task root future the generated program creates), the core's executor holds exactly as many tasks as there are unfinished commands returned by update, the bridge registry holds no entry for a request that can no longer be resolved (undecodable answers included); after dropping the host no task future exists; plus, on one thread, histories of up to 120 (thorough 600) timer cycles through both time APIs (fired / cleared and answered / cleared then fired / fired then cleared / handle dropped / cleared in the starting update), after each of which the executor must be empty and the legacy API's process-wide set of cleared ids as small as before; non-trivial = >= 100 actions in which the set of outstanding requests returned to empty >= 10 times; distinct = distinct (host, universe)",
             nontrivial: |_, i| i.actions >= 100 && i.returned_to_empty >= 10,
             quick: 600,
             thorough: 12_000,
@@ -358,7 +359,12 @@ fn main() {
     };
     match mode {
         Mode::Replay(path) => {
-            let res = vkit::read_replay(&path).and_then(|v| serde_json::from_value::<Case>(v).map_err(|e| e.to_string())).and_then(|c| check(&c));
+            let v = vkit::read_replay(&path);
+            if let Ok(Some(t)) = v.as_ref().map(|v| v.get("timers").cloned()) {
+                let res = serde_json::from_value::<Vec<c13_timers::Cycle>>(t).map_err(|e| e.to_string()).and_then(|c| c13_timers::run(&c).map(|_| ()).map_err(|(s, w)| format!("[release] [{s}] {w}")));
+                vkit::finish_replay(sp.prop, &path, res)
+            }
+            let res = v.and_then(|v| serde_json::from_value::<Case>(v).map_err(|e| e.to_string())).and_then(|c| check(&c));
             vkit::finish_replay(sp.prop, &path, res)
         }
         Mode::Run(tier) => {
@@ -375,9 +381,60 @@ fn main() {
             let mut replayed = 0;
             for f in vkit::replay_files(sp.prop) {
                 replayed += 1;
-                if let Err(why) = vkit::read_replay(&f).and_then(|v| serde_json::from_value::<Case>(v).map_err(|e| e.to_string())).and_then(|c| check(&c)) {
+                let res = vkit::read_replay(&f).and_then(|v| match v.get("timers").cloned() {
+                    Some(t) => serde_json::from_value::<Vec<c13_timers::Cycle>>(t).map_err(|e| e.to_string()).and_then(|c| c13_timers::run(&c).map(|_| ()).map_err(|(s, w)| format!("[release] [{s}] {w}"))),
+                    None => serde_json::from_value::<Case>(v).map_err(|e| e.to_string()).and_then(|c| check(&c)),
+                });
+                if let Err(why) = res {
                     println!("why: {why}");
                     println!("VIOLATION property={} replay={}", sp.prop, f.display());
+                    std::process::exit(1);
+                }
+            }
+            if sp.prop == "C13" {
+                // timer clause (one thread: it watches a process-wide set), see c13_timers.rs
+                use proptest::prelude::*;
+                let late_clear_known = vkit::is_known(&known, "legacy-late-clear-leaks-timer-id");
+                if let Some(k) = known.iter().find(|k| k.sig == "legacy-late-clear-leaks-timer-id") {
+                    if matches!(c13_timers::run(&[c13_timers::Cycle::LegacyFireThenClear]), Err((s, _)) if s == k.sig) {
+                        vkit::print_known_finding(k);
+                    }
+                }
+                let all = [
+                    c13_timers::Cycle::LegacyFire,
+                    c13_timers::Cycle::LegacyClearThenFire,
+                    c13_timers::Cycle::LegacyFireThenClear,
+                    c13_timers::Cycle::LegacyStartAndClear,
+                    c13_timers::Cycle::CmdFire,
+                    c13_timers::Cycle::CmdClearAnswered,
+                    c13_timers::Cycle::CmdFireThenClear,
+                    c13_timers::Cycle::CmdDropHandleThenFire,
+                    c13_timers::Cycle::CmdClearBeforeFirstPoll,
+                ];
+                let timer_stats = &stats;
+                let tcheck = |cycles: &Vec<c13_timers::Cycle>| -> Result<(), String> {
+                    let mut cycles = cycles.clone();
+                    if late_clear_known {
+                        let before = cycles.len();
+                        cycles.retain(|c| *c != c13_timers::Cycle::LegacyFireThenClear);
+                        if cycles.len() != before {
+                            timer_stats.excluded_known("legacy-late-clear-leaks-timer-id");
+                        }
+                    }
+                    match c13_timers::run(&cycles) {
+                        Ok(n) => {
+                            timer_stats.case(&("timers", &cycles), n >= 20, &["timers:history", if n >= 100 { "timers:>=100-cycles" } else { "timers:<100-cycles" }]);
+                            Ok(())
+                        }
+                        Err((sig, why)) => Err(format!("[release] [{sig}] {why}")),
+                    }
+                };
+                let max_cycles = tier.pick(120usize, 600usize);
+                let outcome = vkit::run_prop("C13-timers", 1, tier.pick(400, 6_000), move || prop::collection::vec(proptest::sample::select(all.to_vec()), 1..max_cycles), tcheck);
+                if let Outcome::Violated(v) = outcome {
+                    let path = vkit::write_replay(sp.prop, &serde_json::json!({ "timers": v.case }), &v.why);
+                    println!("why: {}", v.why);
+                    println!("VIOLATION property={} replay={}", sp.prop, path.display());
                     std::process::exit(1);
                 }
             }
